@@ -17,7 +17,7 @@ RULE = ('all 64 subsets of the six schedulable parameters (exhaustive, case inde
         'non-trivial: >=1 scheduled parameter and >=2 scheduler steps at distinct step values (or an exp-decay grid); distinct = hash(subset, sequence shape)')
 ASSUMPTIONS = ['hyper-parameters are read back through the public properties of the preconditioner',
                'interval factors are generated so that truncated intervals stay >= 1 before a real step() is taken']
-REQUIRED = ['value_checks', 'ctor_reject_checks', 'expdecay_checks']
+REQUIRED = ['value_checks', 'ctor_reject_checks', 'ctor_reject_set_checks', 'expdecay_checks']
 
 PARAMS = ['factor_update_steps', 'inv_update_steps', 'damping', 'factor_decay', 'kl_clip', 'lr']
 
@@ -153,6 +153,27 @@ def run_sched_case(rng, res, idx, maxlen):
             if raised != (lam == nm):
                 res.violation(f'LambdaParamScheduler with {lam}_lambda on a preconditioner whose {nm} is callable: raised={raised}', dict(idx=idx, callable_param=nm, lam=lam))
                 return
+    # several callables and several lambdas at once: refused exactly when the two sets intersect
+    for _ in range(6):
+        cset = [nm for nm in PARAMS if rng.random() < 0.35]
+        lset = [nm for nm in PARAMS if rng.random() < 0.45]
+        cfg = dict(init)
+        for nm in cset:
+            v_ = 1 if nm in PARAMS[:2] else 0.5
+            cfg[nm] = rng.choice([(lambda s, v_=v_: v_), functools.partial(_plain, v=v_), _CallableObj(v_), _CallableObj(v_).method])
+        with warnings.catch_warnings():
+            warnings.simplefilter('ignore')
+            q = BaseKFACPreconditioner({}, assignment=None, tdc=TorchDistributedCommunicator(), **cfg)
+        res.count('ctor_reject_set_checks')
+        try:
+            LambdaParamScheduler(q, **{lam + '_lambda': (lambda s: 1.0) for lam in lset})
+            raised = False
+        except ValueError:
+            raised = True
+        if raised != bool(set(cset) & set(lset)):
+            res.violation(f'LambdaParamScheduler with lambdas for {lset} on a preconditioner whose {cset} are callables: raised={raised}', dict(idx=idx, callable_params=cset, lams=lset))
+            return
+        res.add('ctor_sets', str((sorted(cset), sorted(lset))))
 
 
 def run_expdecay_case(rng, res, idx, kmax, cap=None):
